@@ -14,6 +14,89 @@ import (
 
 func init() {
 	vpRegister("c01_tamper", vpH_c01_tamper)
+	vpRegister("c01_fields", vpH_c01_fields)
+	vpRegister("c01_legacy", vpH_c01_legacy)
+}
+
+// The mandatory-field rule on its own: whatever the signed-field list looks
+// like (any order, repeats, env:: entries, unknown names), the step hands out
+// values exactly when all five mandatory fields occur in it and nothing
+// unknown does.
+func vpH_c01_fields() {
+	names := []string{"command", "env", "plugins", "matrix", "repository_url", "env::P", "label"}
+	n := vpInt(0, vpParam("fields"))
+	var fields []string
+	var has [7]bool
+	for i := 0; i < n; i++ {
+		j := vpInt(0, 6)
+		fields = append(fields, names[j])
+		has[j] = true
+	}
+	c := &CommandStepWithInvariants{CommandStep: pipeline.CommandStep{Command: "c"}, RepositoryURL: "r"}
+	vals, err := c.ValuesForFields(fields)
+	if has[0] && has[1] && has[2] && has[3] && has[4] && !has[6] {
+		vpAssert(err == nil && len(vals) == 5, "a field list that covers the five mandatory fields (any order, repeats, env:: entries) yields their five values")
+	} else {
+		vpAssert(err != nil, "a field list that lacks a mandatory field, or names an unknown one, is refused however it is padded")
+	}
+}
+
+// vpLegacyFielder signs like an older signer that did not cover one of the
+// fields that are mandatory today.
+type vpLegacyFielder struct {
+	*CommandStepWithInvariants
+	omit string
+}
+
+func (l vpLegacyFielder) SignedFields() (map[string]any, error) {
+	m, err := l.CommandStepWithInvariants.SignedFields()
+	if err != nil {
+		return nil, err
+	}
+	delete(m, l.omit)
+	return m, nil
+}
+
+// A genuine signature (made with the right key) that does not cover a
+// mandatory field never verifies against a command step, whatever is done to
+// the (unsigned) field list: the uncovered field could otherwise be changed
+// freely.
+func vpH_c01_legacy() {
+	ctx := context.Background()
+	mand := []string{"command", "env", "plugins", "matrix", "repository_url"}
+	omit := mand[vpInt(0, 4)]
+	step := pipeline.CommandStep{Command: "c", Env: map[string]string{"A": "x"}, Plugins: pipeline.Plugins{{Source: "p#v1"}}}
+	s := vpSigSigner(1)
+	sig, err := Sign(ctx, s, vpLegacyFielder{&CommandStepWithInvariants{CommandStep: step, RepositoryURL: "r"}, omit})
+	vpAssume(err == nil && sig != nil)
+	rec := &pipeline.Signature{Algorithm: sig.Algorithm, SignedFields: append([]string{}, sig.SignedFields...), Value: sig.Value}
+	for pad := vpInt(0, 2); pad > 0; pad-- { // pad the list with repeats of fields it already has
+		f := mand[vpInt(0, 4)]
+		vpAssume(f != omit)
+		if vpBool() {
+			rec.SignedFields = append(rec.SignedFields, f)
+		} else {
+			rec.SignedFields = append([]string{f}, rec.SignedFields...)
+		}
+	}
+	pres := step
+	presRepo := "r"
+	if vpBool() { // the uncovered field is what an attacker would change
+		switch omit {
+		case "command":
+			pres.Command = "evil"
+		case "env":
+			pres.Env = map[string]string{"A": "evil"}
+		case "plugins":
+			pres.Plugins = pipeline.Plugins{{Source: "evil#v1"}}
+		case "matrix":
+			pres.Matrix = &pipeline.Matrix{Setup: pipeline.MatrixSetup{"": {"evil"}}}
+		case "repository_url":
+			presRepo = "evil"
+		}
+	}
+	verr := Verify(ctx, rec, s, &CommandStepWithInvariants{CommandStep: pres, RepositoryURL: presRepo})
+	vpAssert(verr != nil, "a signature that does not cover a mandatory field never verifies, however its field list is padded")
 }
 
 func vpH_c01_tamper() {
